@@ -68,20 +68,5 @@ Qed.
 Theorem mitigate_computable : forall x : F, mitigate_underflow_for_coordinate x = mitigate_c x \/
   (exists s, x = B754_zero s /\ mitigate_c x = x /\ mitigate_underflow_for_coordinate x = x).
 Proof.
-  intros x. left. unfold mitigate_c. rewrite classify_c_correct.
-  unfold mitigate_underflow_for_coordinate.
-  destruct x as [s | s | | s m e H].
-  - destruct s; reflexivity.
-  - destruct s; reflexivity.
-  - reflexivity.
-  - set (x := B754_finite s m e H : F).
-    assert (Hf : is_finite x = true) by reflexivity.
-    assert (Hfa : is_finite (f_abs x) = true) by reflexivity.
-    unfold f_ne, f_lt.
-    rewrite (Beqb_correct _ _ x f_zero Hf eq_refl).
-    change (B2R f_zero) with 0. rewrite Req_bool_false by (apply finite_nonzero). cbn [negb andb].
-    rewrite (Bltb_correct _ _ _ _ Hfa MIN_finite). unfold f_abs. rewrite B2R_Babs, MIN_is_2_pow_m142.
-    unfold classify. fold x.
-    destruct (Rlt_bool (Rabs (B2R x)) (two_pow (-142))); [reflexivity|].
-    destruct (Rlt_bool _ _); reflexivity.
+  intros x. left. unfold mitigate_c. rewrite classify_c_correct. apply mitigate_cases.
 Qed.
